@@ -124,7 +124,10 @@ Definition set_pos (s : src) (p : Z) : src :=
   mksrc (s_data s) p (s_ops s) (s_fault s) (s_reserved s).
 
 (** What is left to read at the current position. *)
-Definition s_rest (s : src) : bytes := skipn (Z.to_nat (s_pos s)) (s_data s).
+Definition s_rest (s : src) : bytes :=
+  (* a position at or beyond the end leaves nothing to read; tested first so that evaluation never
+     builds a unary number from a position taken from the input (an index offset can be 2^32) *)
+  if zlen (s_data s) <=? s_pos s then [] else skipn (Z.to_nat (s_pos s)) (s_data s).
 
 (** `read_exact` on a `Cursor`: all n bytes or UnexpectedEof (the cursor is
     then left at the end). *)
